@@ -207,7 +207,14 @@ pub fn hist_str(h: &[Inst]) -> String {
 /// `check_placement[i] = false` suppresses the placement comparison for don't-care opcodes.
 pub fn run_seq(h: &[Inst], via_binary: bool) -> Step {
     let mut outcomes = vec![];
-    let rep = json!({"kind": "loader-seq", "sequence": h.iter().map(|i| i.short()).collect::<Vec<_>>()});
+    let rep_words: Vec<u32> = {
+        let mut w = model::header(0x0001_0000, 0, 1000);
+        for i in h {
+            w.extend(enc(i));
+        }
+        w
+    };
+    let rep = json!({"kind": "loader-seq", "sequence": h.iter().map(|i| i.short()).collect::<Vec<_>>(), "words": rep_words});
     let r = guarded(|| -> (Option<(String, String)>, Option<String>) {
         let mut real = dr::Loader::new();
         let mut m = LModel::new(None);
